@@ -71,11 +71,14 @@ class Ledger:
             n = sum(1 for o in self.obls if o["rule"] == rid)
             if n < floor:
                 errors.append(f"rule {rid} matched {n} instance(s), fewer than the confirmed floor {floor} ({why})")
-        if errors:
+        failed_any = [o for o in self.obls if o["status"] == "failed" and self.key(o) not in known_keys]
+        if errors and not failed_any:
             for e in errors:
                 print(f"ANALYSIS-ERROR property={self.prop} {e}")
             self._write(project, files, violations=0, status="analysis-error", errors=errors)
             return 2
+        for e in errors:
+            print(f"NOTE property={self.prop} {e} (reported violations stand; dependent obligations could not be generated)")
         failed = [o for o in self.obls if o["status"] == "failed"]
         viol = []
         kf = []
